@@ -100,10 +100,21 @@ def obligations(bits):
         O.append((f, '-0 exact', NZ, ('point', 1.0), '%s(-0) = 1 exactly' % f))
     for f in ('log', 'log2', 'log10'):
         O.append((f, '1 exact', ONE, only('PZ'), '%s(1) = +0 exactly' % f))
+    # graceful saturation of the exp family well outside the finite range of the result (statement of C10/C11, decided
+    # here because it is a class property): underflow side -> +0 or a tiny positive value, overflow side -> +inf or huge
+    sat = {32: {'exp': (-89.0, 89.0), 'exp2': (-130.0, 129.0), 'exp10': (-39.0, 39.0)},
+           64: {'exp': (-712.0, 711.0), 'exp2': (-1030.0, 1025.0), 'exp10': (-310.0, 309.0)}}[bits]
+    for f, (lo_, hi_) in sorted(sat.items()):
+        O.append((f, 'far below the underflow threshold', F([], (-MAX, lo_)), ('small_nonneg',), '%s(x) for x <= %g is +0 or a tiny positive value (never negative, infinite or NaN)' % (f, lo_)))
+        O.append((f, 'far above the overflow threshold', F([], None, (hi_, MAX)), ('huge_pos',), '%s(x) for x >= %g is +inf or a huge positive value' % (f, hi_)))
     NEGINT = (F([], (-MAX, -1.0)), 'int')
     O.append(('tgamma', 'negative integer', NEGINT, only('N'), 'tgamma at a negative integer is NaN'))
     O.append(('lgamma', 'negative integer', NEGINT, only('PI'), 'lgamma at a negative integer is +inf'))
     return O
+
+
+TINYNORM = [1.1754943508222875e-38]      # set per precision by analyse()
+HUGE = [3.4028234663852886e38 / 16]
 
 
 def satisfied(exp, out):
@@ -116,6 +127,10 @@ def satisfied(exp, out):
     if exp[0] == 'point':
         iv = v.pos if exp[1] > 0 else v.neg
         return (not v.sp and iv == (exp[1], exp[1]) and (v.neg if exp[1] > 0 else v.pos) is None), repr(v)
+    if exp[0] == 'small_nonneg':
+        return (v.sp <= frozenset(['PZ']) and v.neg is None and (v.pos is None or v.pos[1] <= 16 * TINYNORM[0]) and not v.empty()), repr(v)
+    if exp[0] == 'huge_pos':
+        return (v.sp <= frozenset(['PI']) and v.neg is None and (v.pos is None or v.pos[0] >= HUGE[0]) and not v.empty()), repr(v)
     if exp[0] == 'posfin':
         return (not v.sp and v.neg is None and v.pos is not None), repr(v)
     if exp[0] == 'negfin':
@@ -132,6 +147,8 @@ def analyse(cfgname):
     mod = ir.load_ll(ll)
     out = {'cfg': cfgname, 'res': [], 'parity': [], 'broken_list': []}
     for (tn, bits) in (('f32', 32), ('f64', 64)):
+        TINYNORM[0] = 1.1754943508222875e-38 if bits == 32 else 2.2250738585072014e-308
+        HUGE[0] = (3.4028234663852886e38 if bits == 32 else 1.7976931348623157e308) / 16
         for (f, inn, inp, exp, what) in obligations(bits):
             fn = mod.functions.get('m_%s_%s' % (f, tn))
             if fn is None:
